@@ -471,7 +471,37 @@ def propagating_cases(rng, tier, side, patterns=None):
                         turns.append(t)
                     cfg["turns"] = turns
                     cases.append(cfg)
+    # 2.x, the caller keeps ONE live State object and hands the object to every call (`generate_async(state=<State>)`): the object IS
+    # what the failed call left behind.  One failure per conversation, the following message goes to the other answering flow (the
+    # interrupted flow instance never answers again - an empty reply, which is not this check's question).
+    if patterns is None:
+        for dialog, ins, outs, sc in ((False, [0], [0, 1], False), (False, [], [], True)):
+            for pat in LIVE_PATTERNS[side]:
+                cfg = {"ver": "2.x", "dialog": dialog, "exc": False, "in": list(ins), "out": list(outs), "carry": "liveobj", "usaid": "multi"}
+                if sc:
+                    cfg["sc"] = True
+                turns = []
+                route = rng.choice("ab")
+                for k, ev in enumerate(pat):
+                    t = clean_turn(rng, cfg, k + 1)
+                    if sc:
+                        t["vin"] = _set(t["vin"], SC_ID, "a")
+                        t["vout"] = _set(t["vout"], SC_ID, "a")
+                    if k == len(pat) - 1:
+                        route = "b" if route == "a" else "a"
+                    set_route(t, route, cfg)
+                    _apply_event(rng, cfg, t, ev)
+                    turns.append(t)
+                cfg["turns"] = turns
+                cases.append(cfg)
     return cases
+
+
+LIVE_PATTERNS = {
+    "out": [["ok", "xo1", "r"], ["ok", "ok", "xo0", "r"], ["ok", "C9", "ok", "r"], ["ok", "L0", "r"], ["ok", "xi", "r"]],
+    "in": [["ok", "xi", "ri"], ["ok", "xo1", "ri"], ["ok", "C0", "ri"]],
+    "both": [["ok", "xo1", "r"], ["ok", "xi", "r"], ["ok", "L0", "ri"], ["ok", "C1", "r"], ["ok", "C3", "r"]],
+}
 
 
 def inject_propagating(rng, case):
@@ -571,7 +601,7 @@ def ctx_request(case):
 
 
 def has_propagating(case):
-    return any(P.propagating(t) for t in case["turns"])
+    return any(P.propagating(t) for t in case["turns"]) or case.get("carry") == "liveobj"
 
 
 def model_requests(case, obs, method="C01.conv"):
@@ -585,6 +615,7 @@ def model_requests(case, obs, method="C01.conv"):
 def _conv_requests(case, method):
     return [{
         "m": method,
+        "live": case.get("carry") == "liveobj" and case["ver"] == "2.x",
         "ver": case["ver"],
         "cfg": {"in": case["in"], "out": case["out"], "dialog": bool(case["dialog"]), "exc": bool(case["exc"]), "sc": bool(case.get("sc")),
                 "single_call": case["ver"] == "1.0" and case.get("gen") == "single",
@@ -858,6 +889,18 @@ SIG_STALE = "v1-stale-context-after-hidden-turn"
 SIG_FLAG = "v2-output-rails-skipped-after-abort"
 SIG_SC = "self-check-output-continues-after-exception"
 SIG_TRAIL = "v1-trailing-message-bypasses-input-rails"
+SIG_LIVE = "v2-live-state-object-after-propagated-failure"
+
+
+def live_object_after_propagated_failure(case, obs, k):
+    """Colang 2.x, the caller hands ONE live State object to every call, and an earlier call ended by a propagated failure while the
+    output rails were in progress (the last step before the failure is an output rail's action)"""
+    if case["ver"] != "2.x" or case.get("carry") != "liveobj" or k is None:
+        return False
+    for tc, to in list(zip(case["turns"], obs["turns"]))[:k]:
+        if to["raised"] and P.propagating(tc) and to["steps"] and to["steps"][-1][0] == "rail" and to["steps"][-1][1] == "out":
+            return True
+    return False
 
 
 def trailing_message_request(case, obs, k):
@@ -879,6 +922,8 @@ def region_signature(case, obs, msg, oracle_codes_stale=(), oracle_codes_flag=()
     k = failing_turn(msg)
     m = _re.match(r"turn \d+: \[([a-z-]+)\]", msg or "")
     code = m.group(1) if m else None
+    if live_object_after_propagated_failure(case, obs, k) and code is not None and code in oracle_codes_flag + ("blocked-returned", "unchecked-text"):
+        return SIG_LIVE
     if trailing_message_request(case, obs, k) and oracle_codes_trail and (code is None or code in oracle_codes_trail):
         return SIG_TRAIL
     if selfcheck_output_blocked_in_exception_mode(case, obs, k) and code is not None and code in oracle_codes_sc:
